@@ -76,14 +76,29 @@ def prepare(pid, prop):
     return bdir
 
 
-def build_unit(pid, unit, bdir, race):
-    out = os.path.join(bdir, unit["name"] + (".race" if race else "") + ".test")
+def fuzz_in_quick(pid, t):
+    """In the quick tier a native fuzz target only runs (as plain regression) when committed crashers exist for it."""
+    d = os.path.join(VERIF, "regress", pid, "fuzz", t["run"])
+    return os.path.isdir(d) and len(os.listdir(d)) > 0
+
+
+def variant_of(t):
+    return "fuzz" if t.get("fuzz") else ("race" if t.get("race") else "")
+
+
+def build_unit(pid, unit, bdir, variant):
+    if variant is True:
+        variant = "race"
+    variant = variant or ""
+    out = os.path.join(bdir, unit["name"] + ("." + variant if variant else "") + ".test")
     cmd = ["go", "test", "-c", "-tags", "verif", "-vet=off",
            "-modfile=" + os.path.join(bdir, "go.mod"),
            "-overlay=" + os.path.join(bdir, "overlay.json"),
            "-o", out]
-    if race:
+    if variant == "race":
         cmd.append("-race")
+    if variant == "fuzz":
+        cmd.append("-fuzz=FuzzVerif")  # coverage instrumentation for native fuzzing
     cmd.append("./" + unit["pkg"])
     t0 = time.time()
     p = subprocess.run(cmd, cwd=REPO, env=go_env(), stdout=subprocess.PIPE, stderr=subprocess.STDOUT, text=True)
@@ -161,6 +176,8 @@ def signature(job):
         return "panic"
     if "[rapid] flaky test" in out:
         return "flaky"
+    if job.get("fuzz"):
+        return "fuzz-crash"
     return "unclassified"
 
 
@@ -176,12 +193,49 @@ def save_replay(pid, job, sig):
             path = os.path.join(rdir, tag + ".fail")
             shutil.copyfile(src, path)
             break
+    if job.get("fuzz"):
+        mm = re.findall(r"Failing input written to (\S+)", job["out"])
+        for ff in mm:
+            src = ff if os.path.isabs(ff) else os.path.join(job["cwd"], ff)
+            if os.path.exists(src):
+                path = os.path.join(rdir, "%s__%s__fuzz-%s.fuzzinput" % (job["unit"], job["test"], os.path.basename(src)))
+                shutil.copyfile(src, path)
+                break
     logp = os.path.join(rdir, tag + ".log")
     with open(logp, "w") as f:
         f.write("# property=%s unit=%s test=%s seed=%s signature=%s\n# cmd: %s\n" %
                 (pid, job["unit"], job["test"], job["seed"], sig, " ".join(job["cmd"])))
         f.write(job["out"][-200000:])
     return path or logp
+
+
+def make_fuzz_job(pid, unit, t, tier, binp, bdir, known, seed_base):
+    """Native go fuzzing (coverage guided). thorough: fuzz for t['fuzztime']; quick: only re-run the seed corpus, the committed
+    corpus (harness/<ID>/corpus/<Fuzz>/) and the committed crashers (regress/<ID>/fuzz/<Fuzz>/) as plain regression inputs."""
+    name = t["run"]
+    tag = "%s.%s.fuzz" % (unit["name"], name)
+    cwd = os.path.join(bdir, "run", tag)
+    shutil.rmtree(cwd, ignore_errors=True)
+    cdir = os.path.join(cwd, "testdata", "fuzz", name)
+    os.makedirs(cdir, exist_ok=True)
+    for src in (os.path.join(VERIF, "harness", pid, "corpus", name), os.path.join(VERIF, "regress", pid, "fuzz", name)):
+        if os.path.isdir(src):
+            for fn in sorted(os.listdir(src)):
+                shutil.copyfile(os.path.join(src, fn), os.path.join(cdir, fn))
+    stats = os.path.join(bdir, "stats", tag)
+    shutil.rmtree(stats, ignore_errors=True)
+    fuzzing = tier == "thorough"
+    ftime = t.get("fuzztime", "45s")
+    secs = int(re.sub(r"[^0-9]", "", ftime) or "45") * (60 if ftime.endswith("m") else 1)
+    if fuzzing:
+        cmd = [binp, "-test.run", "^$", "-test.fuzz", "^" + name + "$", "-test.fuzztime", ftime,
+               "-test.fuzzcachedir", os.path.join(bdir, "fuzzcache", name), "-test.v"]
+    else:
+        cmd = [binp, "-test.run", "^" + name + "$", "-test.count=1", "-test.v"]
+    env = {"VERIF_STATS_DIR": stats, "VERIF_KNOWN": known, "VERIF_TIER": tier, "VERIF_SEED_EFFECTIVE": str(seed_base * 1000 + 1),
+           "VERIF_REPO": REPO, "GOMAXPROCS": str(t.get("fuzz_procs", 8))}
+    return {"unit": unit["name"], "test": name, "shard": 0, "seed": seed_base * 1000 + 1, "cmd": cmd, "cwd": cwd, "stats": stats,
+            "env": env, "timeout": secs + 240, "checks": 0, "rapid": False, "race": False, "fuzz": True, "fuzzing": fuzzing}
 
 
 def make_jobs(pid, prop, tier, seed_base, bins, bdir, only=None):
@@ -193,11 +247,14 @@ def make_jobs(pid, prop, tier, seed_base, bins, bdir, only=None):
         for t in unit["tests"]:
             if only and only not in unit["name"] and only not in t["run"]:
                 continue
-            if tier == "quick" and t.get("thorough_only"):
+            if tier == "quick" and (t.get("thorough_only") or t.get("fuzz")) and not (t.get("fuzz") and fuzz_in_quick(pid, t)):
                 continue
             race = bool(t.get("race"))
-            binp = bins.get((unit["name"], race))
+            binp = bins.get((unit["name"], variant_of(t)))
             if binp is None:
+                continue
+            if t.get("fuzz"):
+                jobs.append(make_fuzz_job(pid, unit, t, tier, binp, bdir, known, seed_base))
                 continue
             checks = t.get(tier, t.get("quick", 100))
             shards = t.get("shards", 12) if tier == "thorough" else t.get("quick_shards", 1)
@@ -243,7 +300,7 @@ def make_jobs(pid, prop, tier, seed_base, bins, bdir, only=None):
             if tdef is None:
                 continue
             race = bool(tdef.get("race"))
-            binp = bins.get((uname, race))
+            binp = bins.get((uname, variant_of(tdef)))
             if binp is None:
                 continue
             tag = "regress.%s" % fn
@@ -310,6 +367,16 @@ def write_evidence(pid, prop, tier, seed, units, wall, violations, inconclusive,
                           "distinct_nontrivial": len(u["fps"]), "classes": dict(sorted(u["classes"].items())),
                           "exhaustive": u["exhaustive"], "notes": u["notes"],
                           "known_finding_hits": u["known_hits"]}
+    fuzz = {}
+    for j in jobs:
+        if j.get("fuzz"):
+            ex = re.findall(r"execs: (\d+)", j["out"])
+            ni = re.findall(r"new interesting: \d+ \(total: (\d+)\)", j["out"])
+            base = re.findall(r"gathering baseline coverage: \d+/(\d+) completed", j["out"])
+            fuzz[j["unit"] + "/" + j["test"]] = {"mode": "coverage-guided fuzzing" if j.get("fuzzing") else "corpus replay only",
+                                               "execs": int(ex[-1]) if ex else 0,
+                                               "corpus_total_interesting": int(ni[-1]) if ni else 0,
+                                               "baseline_corpus": int(base[-1]) if base else 0, "wall_s": round(j["wall"], 1)}
     ev = {
         "property_id": pid,
         "tier": tier,
@@ -324,6 +391,7 @@ def write_evidence(pid, prop, tier, seed, units, wall, violations, inconclusive,
             "units": per_unit,
             "exhaustive_units": sorted(n for n, u in units.items() if u["exhaustive"]),
             "processes": len(jobs),
+            "native_fuzz": fuzz,
             "inconclusive": inconclusive,
             "known_findings_reported": known_lines,
         },
@@ -342,7 +410,7 @@ def write_evidence(pid, prop, tier, seed, units, wall, violations, inconclusive,
 
 def do_replay(pid, prop, path, bdir):
     base = os.path.basename(path)
-    m = re.match(r"(.+?)__(.+?)__(.+)\.(fail|log)$", base)
+    m = re.match(r"(.+?)__(.+?)__(.+)\.(fail|log|fuzzinput)$", base)
     if not m:
         log("cannot parse replay file name", base)
         return 2
@@ -354,8 +422,7 @@ def do_replay(pid, prop, path, bdir):
         log("unknown unit", uname)
         return 2
     tdef = next((t for t in unit["tests"] if t["run"] == test), None)
-    race = bool(tdef and tdef.get("race"))
-    binp, out, _ = build_unit(pid, unit, bdir, race)
+    binp, out, _ = build_unit(pid, unit, bdir, variant_of(tdef or {}))
     if binp is None:
         log(out[-4000:])
         log("INCONCLUSIVE property=%s build failed" % pid)
@@ -367,7 +434,11 @@ def do_replay(pid, prop, path, bdir):
     known = ""  # a replay never suppresses
     env = dict(os.environ)
     env.update({"VERIF_KNOWN": known, "VERIF_TIER": "quick", "VERIF_SEED_EFFECTIVE": str(seed), "VERIF_REPO": REPO})
-    if kind == "fail":
+    if kind == "fuzzinput":
+        cdir = os.path.join(cwd, "testdata", "fuzz", test)
+        os.makedirs(cdir, exist_ok=True)
+        shutil.copyfile(path, os.path.join(cdir, "replayed-input"))
+    elif kind == "fail":
         cmd += ["-rapid.failfile=" + os.path.abspath(path), "-rapid.checks=0", "-rapid.seed=%d" % (seed or 1), "-rapid.nofailfile"]
         if tdef and tdef.get("steps"):
             cmd += ["-rapid.steps=%d" % tdef["steps"]]
@@ -417,9 +488,9 @@ def main(argv):
     need = set()
     for unit in prop["units"]:
         for t in unit["tests"]:
-            if a.tier == "quick" and t.get("thorough_only") and not a.build_only:
+            if a.tier == "quick" and (t.get("thorough_only") or t.get("fuzz")) and not (t.get("fuzz") and fuzz_in_quick(pid, t)):
                 continue
-            need.add((unit["name"], bool(t.get("race"))))
+            need.add((unit["name"], variant_of(t)))
     bins = {}
     build_failed = []
     units_by_name = {u["name"]: u for u in prop["units"]}
@@ -432,7 +503,7 @@ def main(argv):
                 build_failed.append((n, r, out))
             else:
                 bins[(n, r)] = binp
-                log("built %s%s in %.1fs" % (n, " (race)" if r else "", dt))
+                log("built %s%s in %.1fs" % (n, " (%s)" % r if r else "", dt))
     if build_failed:
         for n, r, out in build_failed:
             log("BUILD FAILED unit=%s race=%s\n%s" % (n, r, out[-6000:]))
